@@ -169,6 +169,19 @@ def mk_or(xs: List[Term]) -> Term:
     return ("or", tuple(uniq))
 
 
+def assume(t: Term, facts: Any) -> Term:
+    """simplify the condition `t` given a set of conditions known to hold (literal matching only)"""
+    if t in facts:
+        return C(True)
+    if mk_not(t) in facts:
+        return C(False)
+    if t[0] == "and":
+        return mk_and([assume(x, facts) for x in t[1]])
+    if t[0] == "or":
+        return mk_or([assume(x, facts) for x in t[1]])
+    return t
+
+
 def conjuncts(t: Term) -> List[Term]:
     return list(t[1]) if t[0] == "and" else [t]
 
@@ -196,9 +209,30 @@ def free_vars(t: Term) -> set:
 
 
 def substitute(t: Any, mapping: Dict[Term, Term]) -> Any:
+    """replace sub-terms; linear forms, integer comparisons and boolean connectives are re-canonicalised afterwards"""
     if isinstance(t, tuple):
         if t in mapping:
             return mapping[t]
+        k = t[0] if t else None
+        if k == "lin" and len(t) == 3 and isinstance(t[2], int):
+            acc: Term = C(t[2])
+            for a, c in t[1]:
+                acc = lin_add(acc, lin_scale(substitute(a, mapping), c))
+            return acc
+        if k == "cmpz" and len(t) == 3:
+            return mk_cmpz(t[1], substitute(t[2], mapping))
+        if k == "cat" and len(t) == 2:
+            parts = [substitute(x, mapping) for x in t[1]]
+            if any(p[0] == "lin" or is_int_const(p) or (p[0] == "call" and p[1] == ("g", "builtin:len")) for p in parts):
+                acc = C(0)           # `+` with an integer operand is integer addition
+                for p in parts:
+                    acc = lin_add(acc, p)
+                return acc
+            return ("cat", tuple(parts))
+        if k == "and" and len(t) == 2:
+            return mk_and([substitute(x, mapping) for x in t[1]])
+        if k == "or" and len(t) == 2:
+            return mk_or([substitute(x, mapping) for x in t[1]])
         return tuple(substitute(x, mapping) for x in t)
     return t
 
@@ -285,6 +319,8 @@ def show(t: Any) -> str:
         return "Σ[%s | %s]" % (show(t[1]), "; ".join(_show_gen(g) for g in t[2]))
     if k == "comp":
         return "%s[%s | %s]" % (t[1], show(t[2]), "; ".join(_show_gen(g) for g in t[3]))
+    if k == "first":
+        return "first⟨∈%s: %s; else %s⟩" % (show(t[1]), "; ".join("%s → %s" % (show(c), show(v)) for c, v in t[2]), show(t[3]))
     if k == "ife":
         return "(%s if %s else %s)" % (show(t[2]), show(t[1]), show(t[3]))
     if k in ("tuple", "list", "set"):
@@ -567,6 +603,15 @@ class Scope:
         return Scope(self.module, self.func, self.env, self.types, self.outer)
 
 
+def dotted_name(node: ast.AST) -> Optional[str]:
+    if isinstance(node, ast.Name):
+        return node.id
+    if isinstance(node, ast.Attribute):
+        b = dotted_name(node.value)
+        return None if b is None else b + "." + node.attr
+    return None
+
+
 class Norm:
     def __init__(self, repo: Repo, typer: Optional[Typer] = None):
         self.repo = repo
@@ -577,6 +622,7 @@ class Norm:
         self.guard_stack: List[Term] = []      # conditions under which the sub-expression being normalised is evaluated (and/or/if-else)
         self.comp_stack: List[Tuple[Term, Tuple[Term, ...]]] = []
         self._lv = 0
+        self.lv_init: Dict[Term, Term] = {}     # loop-carried variable -> value of the name when the loop was entered / left
 
     # ------------------------------------------------------------ types of terms
     def type_of(self, t: Term, scope: Optional[Scope] = None) -> Type:
@@ -1238,6 +1284,19 @@ class Norm:
                 return fi, not fi.is_staticmethod
         return None
 
+    def namedtuple_fields(self, q: str) -> Optional[List[str]]:
+        """field names of a module-level `X = namedtuple('X', [...])`"""
+        modname, _, name = q.rpartition(".")
+        m = self.repo.modules.get(modname)
+        node = m.assign_nodes.get(name) if m is not None else None
+        if isinstance(node, ast.Call) and (dotted_name(node.func) or "").split(".")[-1] == "namedtuple" and len(node.args) == 2:
+            spec = node.args[1]
+            if isinstance(spec, (ast.List, ast.Tuple)) and all(isinstance(e, ast.Constant) and isinstance(e.value, str) for e in spec.elts):
+                return [e.value for e in spec.elts]   # type: ignore
+            if isinstance(spec, ast.Constant) and isinstance(spec.value, str):
+                return spec.value.replace(",", " ").split()
+        return None
+
     def mk_call(self, f: Term, args: List[Term], kwargs: List[Tuple[str, Term]], scope: Optional[Scope]) -> Term:
         # beta-reduction of an immediately applied lambda (also under a conditional choice of lambdas)
         if not kwargs:
@@ -1268,6 +1327,11 @@ class Norm:
                 ok = False
             if not ok:
                 kwargs = sorted(kwargs, key=lambda kv: kv[0])
+        if kwargs and f[0] == "g" and not any(k == "**" for k, _ in kwargs):
+            fields = self.namedtuple_fields(f[1])
+            if fields is not None and len(args) + len(kwargs) == len(fields) and all(k in fields[len(args):] for k, _ in kwargs):
+                kw = dict(kwargs)
+                args, kwargs = list(args) + [kw[n] for n in fields[len(args):]], []
         if f[0] == "g" and f[1].startswith("builtin:"):
             b = f[1][8:]
             if b in ("min", "max") and len(args) >= 2 and not kwargs:
